@@ -376,6 +376,23 @@ def correspondence(rep, rng, tier):
       lat = rec['lat']
       hit = r.startswith('ok') and H(x) in r[3:].split(',')
       stat(fam, hit)
+      # F8: does the recorded LLL answer contain +- the planted row of Props/C08Chain.lean?
+      # (statistics only: "LLL returns the planted row" is the one oracle step of the chain)
+      if n > 2 and len(a) > 0 and gmpy2.is_prime(n):
+        from corr.c08_chain import planted_in
+        try:
+          pl, _ = planted_in(bias, n, weff, x, ks, mult, basis, bits)
+        except Exception:  # noqa
+          pl = False
+        cs = rep.extra.setdefault('chain_statistics', {}).setdefault(
+            'solver/%s/%s' % (BIAS_NAMES[bias], 'w=None' if w is None else 'w-given'),
+            {'instances': 0, 'key_found': 0, 'planted_row_in_lll_output': 0, 'key_found_other_row': 0,
+             'planted_row_but_key_missing': 0})
+        cs['instances'] += 1
+        cs['key_found'] += int(hit)
+        cs['planted_row_in_lll_output'] += int(pl)
+        cs['key_found_other_row'] += int(hit and not pl)
+        cs['planted_row_but_key_missing'] += int(pl and not hit)
 
       def fn(a=a, bb=bb, w=w, n=n, bias=bias, basis=basis):
         lll.reduce = lambda lat_: basis
@@ -421,7 +438,9 @@ def correspondence(rep, rng, tier):
         for c in sorted(set(counts)):
           if c > 70 and not thorough:
             continue
-          plan.append((n, bias, bits, c, None if rng.random() < 0.7 else 2**bits))
+          # the checks always pass w=None: the first count of every (curve, bias, bits) uses the default w
+          plan.append((n, bias, bits, c,
+                       None if (c == sorted(set(counts))[0] or rng.random() < 0.7) else 2**bits))
   for (n, bias, bits, c, w) in plan:
     t0 = time.time()
     run_instance(n, bias, bits, c, w, '%s/%dbit/%dbits' % (BIAS_NAMES[bias], n.bit_length(), bits))
@@ -660,6 +679,37 @@ def correspondence(rep, rng, tier):
     cn_s = 'K' if cn == 'K' else '-' if cn is None else H(int(cn.n))
     if x is not None:
       stat(fam, r.startswith('ok') and H(x) in r[3:].split(','))
+      # F8: is +- the planted row of Props/C08Chain.lean `sandwich_lcg` -- (n*w+1, x, e_t*w) with
+      # e_t = (A_t + B_t*x) mod+- n over the flattened lists of the subset -- in some recorded LLL answer?
+      if cn not in ('K', None) and bases and r.startswith('ok'):
+        n_ = int(cn.n)
+        try:
+          subs = list(hnp._HiddenNumberProblemSubsets(list(a), list(bb), curve, lcg, hnp.SearchStrategy(flags)))
+        except Exception:  # noqa
+          subs = []
+        pl = False
+        for (a0, b0, cs_, w_), basis_ in zip(subs, bases):
+          et = []
+          for ai, bi in zip(a0, b0):
+            for c_, d_ in cs_:
+              v = (((ai * c_ - d_) % n_) + ((bi * c_) % n_) * x) % n_
+              et.append(v if v <= n_ // 2 else v - n_)
+          tail = [e * w_ for e in et]
+          for row in basis_:
+            for t in (1, -1):
+              rr = [t * v for v in row]
+              if len(rr) == len(tail) + 2 and rr[0] == n_ * w_ + 1 and (rr[1] - x) % n_ == 0 and rr[2:] == tail:
+                pl = True
+        hit_ = H(x % n_) in r[3:].split(',')
+        cs2 = rep.extra.setdefault('chain_statistics', {}).setdefault(
+            'solver/lcg/' + fam.split('/')[0],
+            {'instances': 0, 'key_found': 0, 'planted_row_in_lll_output': 0, 'key_found_other_row': 0,
+             'planted_row_but_key_missing': 0})
+        cs2['instances'] += 1
+        cs2['key_found'] += int(hit_)
+        cs2['planted_row_in_lll_output'] += int(pl)
+        cs2['key_found_other_row'] += int(hit_ and not pl)
+        cs2['planted_row_but_key_missing'] += int(pl and not hit_)
     bf.add('hnp.forcurve %s %s %s %s %s %s $%s %s' % (L(a), L(bb), H(int(curve)), cn_s, O(lcg_ids[lcg]),
                                                     H(flags), factory_reg, bases_str(bases)),
            r, tag=fam + ':' + (r[:2] if r.startswith('ok') else r[4:]))
